@@ -23,6 +23,13 @@ pub enum ROp {
     Fact(FOp),
     AddCmd,
     Checkpoint,
+    /// An `add_command` the perspective must refuse: the command's parent is not the perspective head.
+    /// `how` (clamped to 0..=5): 0 = parent id never seen, right max cut; 1 = head id with max cut + 1; 2 = head id with max
+    /// cut - 1 (or + 2 at max cut 0); 3 = stale parent (the head's own parent: previous command of this perspective or the
+    /// address/merge pair the perspective was opened on); 4 = no parent / a single parent on an unrooted empty perspective;
+    /// 5 = a merge command `Merge(head, other)` offered to a perspective whose head is a single command. When the head is
+    /// `None` or a merge pair (empty unrooted / merge perspective) every `how` degenerates to a single wrong parent.
+    Refused { how: u8 },
     /// Revert to one of the outstanding checkpoints (it and all later ones are consumed).
     Revert { sel: u16 },
 }
@@ -58,6 +65,8 @@ struct Cp {
     head: Prior<Address>,
     /// model "clock" when the checkpoint was taken (to tell whether anything happened since)
     clock: usize,
+    /// index of the Checkpoint op
+    op: usize,
 }
 
 struct T<P> {
@@ -114,6 +123,51 @@ impl<P: Perspective + Revertable> T<P> {
         self.clock += 1;
         Ok(())
     }
+
+    /// Offers a command whose parent is not the head. The model: it is refused and NOTHING changes (commands,
+    /// head, facts including the writes pending since the last command); the caller's `observe` after the op and
+    /// every later checkpoint/revert/write check that.
+    fn refused_cmd(&mut self, how: u8, first_parent: &Prior<Address>) -> CheckResult {
+        self.ctr += 1;
+        let fresh = Address { id: sw::cmd_id(500_000 + self.ctr), max_cut: MaxCut::new(0) };
+        let (parent, prio): (Prior<Address>, Priority) = match self.head {
+            Prior::Single(h) => {
+                let mc = h.max_cut.get();
+                match how.min(5) {
+                    0 => (Prior::Single(Address { id: fresh.id, max_cut: h.max_cut }), Priority::Basic(1)),
+                    1 => (Prior::Single(Address { id: h.id, max_cut: MaxCut::new(mc + 1) }), Priority::Basic(1)),
+                    2 => (Prior::Single(Address { id: h.id, max_cut: MaxCut::new(if mc == 0 { 2 } else { mc - 1 }) }), Priority::Basic(1)),
+                    3 => {
+                        let n = self.cmds.len();
+                        let stale = if n >= 2 { Prior::Single(self.cmds[n - 2].addr) } else if n == 1 { *first_parent } else { Prior::None };
+                        let prio = match stale {
+                            Prior::None => Priority::Init,
+                            Prior::Merge(..) => Priority::Merge,
+                            Prior::Single(_) => Priority::Basic(2),
+                        };
+                        (stale, prio)
+                    }
+                    4 => (Prior::None, Priority::Init),
+                    _ => (Prior::Merge(h, Address { id: fresh.id, max_cut: MaxCut::new(mc) }), Priority::Merge),
+                }
+            }
+            // empty unrooted perspective / merge perspective before its merge command: a single parent is wrong
+            Prior::None | Prior::Merge(..) => (Prior::Single(fresh), Priority::Basic(1)),
+        };
+        debug_assert!(parent != self.head);
+        let cmd = Cmd {
+            id: sw::cmd_id(600_000 + self.ctr),
+            parent,
+            prio,
+            policy: if matches!(parent, Prior::None) { Some(vec![1u8; 4]) } else { None },
+            data: self.ctr.to_le_bytes().to_vec(),
+        };
+        let r = self.p.add_command(&cmd);
+        // the refused command must never show up
+        self.all_ids.push(cmd.id);
+        ensure!(r.is_err(), "add_command accepted a command whose parent is not the perspective head", "head {:?}, parent {:?}: {r:?}", self.head, parent);
+        Ok(())
+    }
 }
 
 #[derive(Default)]
@@ -127,6 +181,14 @@ struct Stats {
     rewritten_cp: usize,
     cp_pending: usize,
     revert_no_cp: usize,
+    refused: usize,
+    refused_with_pending: usize,
+    /// revert to a checkpoint such that a refused add_command lies between the checkpoint and the revert
+    revert_over_refused: usize,
+    /// ... and fact writes were pending when it was refused, and no command was accepted since the checkpoint
+    revert_over_refused_pending_only: usize,
+    /// a command was accepted (or the final segment written) with writes that were pending across a refusal
+    accepted_after_refused_pending: usize,
 }
 
 fn run_case<SP: StorageProvider>(mut sp: SP, clean: bool, c: &Case, info: &mut CaseInfo) -> CheckResult {
@@ -245,6 +307,9 @@ fn run_case<SP: StorageProvider>(mut sp: SP, clean: bool, c: &Case, info: &mut C
         t.add_cmd()?;
     }
 
+    // (op index, writes pending?, number of commands) at every refused add_command
+    let mut refused_at: Vec<(usize, bool, usize)> = Vec::new();
+    let mut refused_pending_open = false;
     for (i, o) in c.ops.iter().enumerate() {
         match o {
             ROp::Fact(f) => {
@@ -256,7 +321,22 @@ fn run_case<SP: StorageProvider>(mut sp: SP, clean: bool, c: &Case, info: &mut C
                     sw::check_near(&t.p, &t.cur, &k, "perspective after write")?;
                 }
             }
-            ROp::AddCmd => t.add_cmd()?,
+            ROp::AddCmd => {
+                if refused_pending_open {
+                    st.accepted_after_refused_pending += 1;
+                    refused_pending_open = false;
+                }
+                t.add_cmd()?
+            }
+            ROp::Refused { how } => {
+                st.refused += 1;
+                if t.pending > 0 {
+                    st.refused_with_pending += 1;
+                    refused_pending_open = true;
+                }
+                refused_at.push((i, t.pending > 0, t.cmds.len()));
+                t.refused_cmd(*how, &first_parent).map_err(|f| Failure::new(f.signature, format!("op#{i}: {}", f.detail)))?;
+            }
             ROp::Checkpoint => {
                 if t.pending > 0 {
                     if clean {
@@ -276,6 +356,7 @@ fn run_case<SP: StorageProvider>(mut sp: SP, clean: bool, c: &Case, info: &mut C
                     pending: t.pending,
                     head: t.head,
                     clock: t.clock,
+                    op: i,
                 });
             }
             ROp::Revert { sel } => {
@@ -300,6 +381,13 @@ fn run_case<SP: StorageProvider>(mut sp: SP, clean: bool, c: &Case, info: &mut C
                         st.dropped_pending_only += 1;
                     }
                 }
+                if refused_at.iter().any(|(at, _, _)| *at > cp.op) {
+                    st.revert_over_refused += 1;
+                }
+                if t.cmds.len() == cp.ncmds && refused_at.iter().any(|(at, pend, n)| *at > cp.op && *pend && *n == cp.ncmds) {
+                    st.revert_over_refused_pending_only += 1;
+                }
+                refused_pending_open = false;
                 let r = t.p.revert(cp.token);
                 ensure!(r.is_ok(), "revert returned an error", "op#{i}: {r:?}");
                 // the model: exactly the snapshot
@@ -328,6 +416,9 @@ fn run_case<SP: StorageProvider>(mut sp: SP, clean: bool, c: &Case, info: &mut C
 
     // ---- persist the perspective and read it back: reverted commands / writes must not be stored
     if t.pending > 0 || t.cmds.is_empty() {
+        if refused_pending_open {
+            st.accepted_after_refused_pending += 1;
+        }
         t.add_cmd()?;
     }
     let T { p, cur, cmds, .. } = t;
@@ -382,6 +473,21 @@ fn run_case<SP: StorageProvider>(mut sp: SP, clean: bool, c: &Case, info: &mut C
     if st.cp_pending >= 1 {
         info.label("checkpoint taken with pending writes");
     }
+    if st.refused >= 1 {
+        info.label("add_command refused (parent is not the head)");
+    }
+    if st.refused_with_pending >= 1 {
+        info.label("add_command refused while fact writes were pending");
+    }
+    if st.revert_over_refused >= 1 {
+        info.label("revert across a refused add_command");
+    }
+    if st.revert_over_refused_pending_only >= 1 {
+        info.label("revert of {writes, refused add_command} with no command accepted since the checkpoint");
+    }
+    if st.accepted_after_refused_pending >= 1 {
+        info.label("command accepted/stored with writes that were pending across a refusal");
+    }
     let _ = st.revert_no_cp;
     Ok(())
 }
@@ -391,6 +497,7 @@ fn rop() -> impl Strategy<Value = ROp> {
         8 => sw::fop(3, 4, 2, 3).prop_map(ROp::Fact),
         3 => Just(ROp::AddCmd),
         3 => Just(ROp::Checkpoint),
+        2 => (0u8..6).prop_map(|how| ROp::Refused { how }),
         3 => any::<u16>().prop_map(|sel| ROp::Revert { sel }),
     ]
 }
@@ -419,7 +526,7 @@ fn check_file(clean: bool) -> impl Fn(&Case, &mut CaseInfo) -> CheckResult + Syn
 pub fn run(ctx: &Ctx) -> ! {
     let mut rep = Report::new(ctx, "exploration");
     rep.assume("a checkpoint is used for at most one revert and not after a revert to an older checkpoint (Checkpoint is neither Clone nor Copy and revert consumes it)");
-    let dom = "LinearPerspective of 4 kinds (unrooted / at a stored segment head / opened mid-segment / merge perspective over a written braid index) x 0..40 ops of fact insert/delete (incl. live keys), add_command, checkpoint, revert(to any outstanding checkpoint); after every op all exact+prefix queries of the key universe, head_address and includes(id) for every command id ever added vs the model; after revert vs the snapshot taken at checkpoint; finally the perspective is written and the stored segment's commands, per-command facts and fact index are compared; non-trivial = a revert after >=1 later write or added command";
+    let dom = "LinearPerspective of 4 kinds (unrooted / at a stored segment head / opened mid-segment / merge perspective over a written braid index) x 0..40 ops of fact insert/delete (incl. live keys), add_command, REFUSED add_command (a command whose parent is not the perspective head: unknown id / head id with a wrong max cut / stale parent / no parent / merge parent; must return an error and change nothing - the writes pending at that moment stay pending), checkpoint, revert(to any outstanding checkpoint); after every op all exact+prefix queries of the key universe, head_address and includes(id) for every command id ever added vs the model; after revert vs the snapshot taken at checkpoint; finally the perspective is written and the stored segment's commands, per-command facts and fact index are compared; non-trivial = a revert after >=1 later write or added command";
     rep.explore(
         "linear_clean_checkpoint",
         &format!("{dom}. Checkpoints are only taken at command boundaries (a Checkpoint op with writes pending first adds a command; counted in the labels) - the shape every runtime caller uses"),
